@@ -586,7 +586,7 @@ FIXED_SPEC = {"arg": "part", "group": False, "parts": [{"id": "P0", "divs": 4, "
 
 def run_driver(ctx):
     rng = ctx.rng
-    nscores, nivs, size = (160, 4, 6) if ctx.tier == "quick" else (1500, 4, 8)
+    nscores, nivs, size = (120, 4, 6) if ctx.tier == "quick" else (1200, 4, 8)
     all_ivs = [(n, QUALS[qi], d) for n, qi in classes_model_order() for d in ("up", "down")]
     weighted = all_ivs + [iv for iv in all_ivs if iv[2] == "down"] + [iv for iv in all_ivs if iv[0] == 1] * 2
     jobs = []
@@ -629,8 +629,12 @@ def run_driver(ctx):
         if (feats & {"tie", "grace"}) and not (iv[0] == 1 and iv[1] == "P"):
             ctx.nontrivial(("driver", json.dumps(spec, sort_keys=True), iv))
         n, q, d = iv
-        terms.append("(%s,%s,%s,%s,%s,%s,%s)" % (zt(n), zt(QUALS.index(q)), cbool(d == "up"), celems(r["before"]),
-                                                 celems(r["result"]), celems(r["after"]), celems(r["back"])))
+        cb = [(k, f, canon_pitch(p)) for k, f, p in r["before"]]
+        same_after = [(k, f, canon_pitch(p)) for k, f, p in r["after"]] == cb
+        same_back = [(k, f, canon_pitch(p)) for k, f, p in r["back"]] == cb
+        terms.append("(%s,%s,%s,%s,%s,%s,%s)" % (zt(n), zt(QUALS.index(q)), cbool(d == "up"), celems(r["before"]), celems(r["result"]),
+                                                 "same" if same_after else "(Some %s)" % celems(r["after"]),
+                                                 "same" if same_back else "(Some %s)" % celems(r["back"])))
         kept.append(replay_obj)
         if len(ctx.samples) < 4 and feats >= {"tie", "grace"}:
             ctx.sample({"driver_case": {"arg": spec["arg"], "interval": list(iv), "parts": len(spec["parts"]),
